@@ -30,17 +30,16 @@ def f15 (base ref : Text) : Bool :=
      let e0 := if b.authority.isSome && b.path.isEmpty then [] else nsegs (parentOrEmpty b.path)
      symSkipsGo abs e0 (segs r.path))
 
-/-- F12 (C15): `relative_to` ignores a difference in authority *presence*, inherits the base's
-query, and cannot express a path that is a proper prefix of the base's directory, among others;
-the class is the set of pairs on which the (modelled, correspondence-checked) algorithm does not
-round-trip.  Structural sub-classes with witnesses are listed in `known_findings.json`. -/
-def f12 (a b : Text) : Bool :=
-  match Model.Ref.relative_to a b with
-  | none => false
-  | some r =>
-    match Model.Ref.resolve r b with
-    | none => false
-    | some back => key back != key a
+/-- F12 (C15), what is left of it after the repair of `relative_to`: the property asks for a
+reference that *resolves* to something `==` to `a`, and resolution only produces paths without dot
+segments.  Two kinds of target are `==` to no such path at all, whatever `relative_to` returns:
+a path whose normalised segments are one lone empty segment (`s://h//.`, `s:.//.`: `==` reads
+`[""]`; RFC 3986 5.2.4 writes `//`, which reads `["", ""]`, or nothing), and a relative path ending
+in a `..` that cannot be resolved (`s:./..`: `==` reads `[".."]`, 5.2.4 writes `../`, which reads
+`["..", ""]`).  The class depends on `a` only. -/
+def f12 (a _b : Text) : Bool :=
+  let p := (split a).path
+  nsegs p == [[]] || (!isAbs p && (nsegs p).getLast? == some segDotDot)
 
 /-- F13 (C19): `as_pct_str()` hands the component to `pct_str::PctStr`, whose `chars`, `len`,
 `decode` and `== str` unwrap a lenient UTF-8 decoder: they panic when the decoded octets are
